@@ -1,5 +1,7 @@
 import CppUModel.Base.Proto
 import CppUModel.Model.Registry
+import CppUModel.Model.RegistryGen
+import CppUModel.Model.OrderedTest
 /-!
 Driver for C02: replays harness traces through the registry model and judges the
 implementation's observations with the property's specification oracle.  The oracle is written
@@ -13,7 +15,12 @@ open Registry
 /-! ## model replay -/
 
 structure DState where
-  reg : Reg := Reg.empty
+  reg   : Reg := Reg.empty
+  -- static state of OrderedTest.cpp (`_orderedTestsHead`, `_nextOrderedTest`, `_level`)
+  ohead : Option Nat := none
+  onext : Next := fun _ => none
+  level : Nat → Int := fun _ => 0
+  reordered : Bool := false      -- the harness skips `otest` once the list was reordered / un-registered from
 
 def idsLine (tag : String) (ids : List Nat) : String :=
   " ".intercalate (tag :: ids.map toString)
@@ -79,46 +86,59 @@ def modelStep (d : DState) (op : List String) (obs : List (List String)) : DStat
   match op with
   | ["test", kind, g, n] =>
     match Proto.unhex? g, Proto.unhex? n with
-    | some g, some n => ({ reg := r.addTest g n (kind == "i") scriptedFile (r.objs.size + 1) }, [])
+    | some g, some n => ({ d with reg := r.addTest g n (kind == "i") scriptedFile (r.objs.size + 1) }, [])
     | _, _ => (d, ["bad-op"])
+  | ["otest", lvl, g, n] =>
+    -- TEST_ORDERED: the real OrderedTestInstaller; model = Model/OrderedTest.lean
+    if d.reordered then (d, ["bad-op"]) else
+    match lvl.toInt?, Proto.unhex? g, Proto.unhex? n with
+    | some lvl, some g, some n =>
+      let o : OReg := { reg := r, ohead := d.ohead, onext := d.onext, level := d.level }
+      let o' := o.install lvl g n scriptedFile (r.objs.size + 1)
+      ({ d with reg := o'.reg, ohead := o'.ohead, onext := o'.onext, level := o'.level },
+       [idsLine "order" o'.reg.order, idsLine "ochain" o'.chain])
+    | _, _, _ => (d, ["bad-op"])
   | "gfilter" :: flags :: hex :: _ =>
     match filterOf flags hex with
-    | some f => ({ reg := { r with groupFilters := f :: r.groupFilters } }, [])
+    | some f => ({ d with reg := { r with groupFilters := f :: r.groupFilters } }, [])
     | none => (d, ["bad-op"])
   | "nfilter" :: flags :: hex :: _ =>
     match filterOf flags hex with
-    | some f => ({ reg := { r with nameFilters := f :: r.nameFilters } }, [])
+    | some f => ({ d with reg := { r with nameFilters := f :: r.nameFilters } }, [])
     | none => (d, ["bad-op"])
   | "tfilter" :: flags :: g :: n :: _ =>       -- -t / -st / -xt / -xst <group>.<name>: one filter of each kind
     match filterOf flags g, filterOf flags n with
     | some fg, some fn =>
-      ({ reg := { r with groupFilters := fg :: r.groupFilters, nameFilters := fn :: r.nameFilters } }, [])
+      ({ d with reg := { r with groupFilters := fg :: r.groupFilters, nameFilters := fn :: r.nameFilters } }, [])
     | _, _ => (d, ["bad-op"])
   | "vfilter" :: _ :: g :: n :: _ =>           -- "TEST(group, name)": strict group and strict name filter
     match filterOf "1" g, filterOf "1" n with
     | some fg, some fn =>
-      ({ reg := { r with groupFilters := fg :: r.groupFilters, nameFilters := fn :: r.nameFilters } }, [])
+      ({ d with reg := { r with groupFilters := fg :: r.groupFilters, nameFilters := fn :: r.nameFilters } }, [])
     | _, _ => (d, ["bad-op"])
   | ["cmdline"] => (d, [])          -- same filters, built by the real parser on the other side
-  | ["runignored"] => ({ reg := { r with runIgnored := true } }, [])
+  | ["runignored"] => ({ d with reg := { r with runIgnored := true } }, [])
   | ["reverse"] =>
-    let r' := r.reverseTests
-    ({ reg := r' }, [idsLine "from" r.order, idsLine "order" r'.order])
+    -- `TestRegistry::reverseTests` through the REGENERATED `UtestShellPointerArray::reverse`
+    match r.reverseTestsGen with
+    | some g => ({ d with reg := g.reg, reordered := true }, [idsLine "from" r.order, idsLine "order" g.reg.order])
+    | none => (d, [idsLine "from" r.order, "regenerated-reverse-out-of-fuel"])
   | "shuffle" :: seed :: _ =>
+    -- `TestRegistry::shuffleTests` through the REGENERATED `UtestShellPointerArray::shuffle`
     let rs := natsOf "rands" obs
-    let n := r.order.length
-    let used := rs.take (randsNeeded n)
-    let r' := r.shuffleTests rs
-    let sr := if n == 0 then [] else [s!"srand {(seed.toNat?.getD 0) % 4294967296}"]
-    ({ reg := r' }, [idsLine "from" r.order] ++ sr ++ [idsLine "rands" used, idsLine "order" r'.order])
+    match r.shuffleTestsGen (seed.toNat?.getD 0) rs with
+    | some g =>
+      ({ d with reg := g.reg, reordered := true }, [idsLine "from" r.order] ++ g.srands.map (fun x => s!"srand {x}") ++
+        [idsLine "rands" (rs.take (rs.length - g.rest.length)), idsLine "order" g.reg.order])
+    | none => (d, [idsLine "from" r.order, "regenerated-shuffle-out-of-fuel"])
   | ["run"] =>
     let res := r.run
-    ({ reg := r.afterRun },
+    ({ d with reg := r.afterRun },
      [" ".intercalate ("cb" :: res.2.map Ev.render), countsLine res.1,
       idsLine "execs" (execCounts r.objs.size res.2)])
   | ["undo"] =>
     let r' := r.unDoLastAddTest
-    ({ reg := r' }, [idsLine "from" r.order, idsLine "order" r'.order])
+    ({ d with reg := r', reordered := true }, [idsLine "from" r.order, idsLine "order" r'.order])
   | ["find", "name", hex] =>
     match Proto.unhex? hex with
     | some t => (d, [idsLine "order" r.order, foundLine (findTestWithName t r.tests)])
@@ -133,7 +153,7 @@ def modelStep (d : DState) (op : List String) (obs : List (List String)) : DStat
     (d, [idsLine "order" r.order, foundLine (getTestWithNext target r.tests)])
   | ["shellri", i] =>
     match i.toNat? with
-    | some i => ({ reg := r.shellSetRunIgnored i }, [])
+    | some i => ({ d with reg := r.shellSetRunIgnored i }, [])
     | none => (d, ["bad-op"])
   | ["willrun"] =>
     (d, [" ".intercalate ("willrun" :: r.objs.toList.map (fun t => if t.willRun then "1" else "0"))])
@@ -159,7 +179,7 @@ def modelStep (d : DState) (op : List String) (obs : List (List String)) : DStat
     let runs := runsOfOut res.2.1
     let shuffles := if seed.isSome && a.listMode == .none then a.repeatCount else 0
     let srands := if n == 0 then [] else List.replicate shuffles ((seed.getD 0) % 4294967296)
-    ({ reg := res.1 },
+    ({ d with reg := res.1, reordered := true },
      [idsLine "from" r.order, s!"ret {res.2.2}", idsLine "srands" srands,
       idsLine "rands" (rs.take (shuffles * randsNeeded n)),
       " ".intercalate ("stream" :: streamTokens res.2.1)] ++ repLines r.objs.size runs ++
@@ -187,6 +207,7 @@ structure Shadow where
   nf         : List SFilter := []
   runIgnored : Bool := false
   order      : Option (List Nat) := none     -- list order last shown by the implementation
+  levels     : List (Nat × Int) := []        -- TEST_ORDERED shells: (id, level), in registration order
 
 /-- `p` occurs in `s` at some position -/
 def naiveInfix (s p : List UInt8) : Bool :=
@@ -366,6 +387,26 @@ def specStep (sh : Shadow) (o : Proto.Op) : Except String Shadow := do
     return { sh with tests := sh.tests.push { group := g, name := nm, ignored := kind == "i" },
                      flags := sh.flags.push false,
                      members := sh.members ++ [sh.tests.size], order := none }
+  | ["otest", lvl, g, nm] =>
+    -- TEST_ORDERED(group, name, level): the test is registered like any other (it must run exactly once per
+    -- repetition), no other test is lost, duplicated or moved relative to the others, and the ordered tests
+    -- stand in the list in the order of their levels
+    let some g := Proto.unhex? g | throw "bad otest op"
+    let some nm := Proto.unhex? nm | throw "bad otest op"
+    let some lvl := lvl.toInt? | throw "bad otest op"
+    let ord ← lineOf "order" o.obs
+    let id := sh.tests.size
+    let members := sh.members ++ [id]
+    if sortNats ord != members then
+      throw s!"registering an ordered test lost or duplicated a test ({ord.length} linked, {members.length} registered)"
+    if let some prev := sh.order then
+      if ord.filter (· != id) != prev then throw "registering an ordered test moved or dropped other tests"
+    let levels := sh.levels ++ [(id, lvl)]
+    let inList := ord.filterMap (fun i => (levels.find? (fun p => p.1 == i)).map (·.2))
+    if !(inList.zip (inList.drop 1)).all (fun p => decide (p.1 ≤ p.2)) then
+      throw s!"ordered tests are not in the list in the order of their levels: {inList}"
+    return { sh with tests := sh.tests.push { group := g, name := nm, ignored := false },
+                     flags := sh.flags.push false, members := members, order := some ord, levels := levels }
   | "gfilter" :: flags :: hex :: _ =>
     let f ← parseFilter flags hex
     return { sh with gf := f :: sh.gf }
